@@ -13,6 +13,10 @@ func init() {
 		fs, ev := unit.CheckC19Unit(run)
 		rfs, rev, inc := rtPart(run, "stress", 24, 800, map[string]int{"C19 election actions judged": 300})
 		fs = append(fs, rfs...)
+		tfs, tev, tinc := rtPart(run, "timer", 8, 200, map[string]int{"C19 triggers judged": 150})
+		fs = append(fs, tfs...)
+		inc = append(inc, tinc...)
+		ev["rt_timer"] = tev
 		cfs, cev, cinc := rtPart(run, "ctx", 64, 3000, map[string]int{"C19 current triggers judged": 8})
 		fs = append(fs, cfs...)
 		inc = append(inc, cinc...)
